@@ -2,6 +2,7 @@
 CONSTANTS
   MaxPath = 2
   NFlowsA = 3
+  SymLits <- SymA
   MaxFlows = 3
   FlowDomain <- FlowsA
   TxnDomain <- TxnsA
@@ -10,5 +11,5 @@ CONSTANTS
   KF_EndTest = FALSE
   KF_WildNew = TRUE
 SPECIFICATION ISpec
-INVARIANTS InvCorrect InvOrder InvBuild
+INVARIANTS InvCorrect InvOrder InvBuild Witnesses
 CHECK_DEADLOCK FALSE
